@@ -322,6 +322,8 @@ def fl_label(t):
         return "cs:" + m
     if p == "close":
         return "closing:" + m
+    if p == "funlock":
+        return "funlock:" + m
     return "?"
 
 
@@ -355,12 +357,17 @@ def run_flock_schedule(ctx, rng, nthreads, cycles):
 
     def coop_flock(fd, cmd):
         me = sched.current()
+        if cmd == real_fcntl.LOCK_UN:
+            # (not used by the code as it is; a variant that unlocks explicitly must be schedulable too)
+            me.park(("funlock",))
+            kernel.pop(fd, None)
+            return
         me.park(("flock",), lambda: compatible(fd, cmd))
         kernel[fd] = (me, "w" if cmd == real_fcntl.LOCK_EX else "r")
 
     saved = (pathutils.threading, pathutils.fcntl, getattr(pathutils, "open", None))
     pathutils.threading = standin
-    pathutils.fcntl = types.SimpleNamespace(flock=coop_flock, LOCK_EX=real_fcntl.LOCK_EX, LOCK_SH=real_fcntl.LOCK_SH)
+    pathutils.fcntl = types.SimpleNamespace(flock=coop_flock, LOCK_EX=real_fcntl.LOCK_EX, LOCK_SH=real_fcntl.LOCK_SH, LOCK_UN=real_fcntl.LOCK_UN)
     pathutils.open = coop_open
     lock = pathutils.RwLock("/nonexistent/verif.lock")
     plan = [[rng.choice("rw") for _ in range(cycles)] for _ in range(nthreads)]
@@ -419,7 +426,10 @@ def run_flock_schedule(ctx, rng, nthreads, cycles):
                 model = {k: ms[k] for k in ("readers", "writer", "pcs")}
                 if st.get("blocked") or real != model:
                     ctx.disagree("flock RwLock vs model after a step", dict(case), real, dict(model, blocked=st.get("blocked", False)))
-                    break
+                    # the schedule goes on without the model: the oracles above look for a concrete failure
+                    # (an exception out of acquire, two holders, a wrong `locked` view, a deadlock)
+                    sid = None
+                    continue
                 for x in threads:
                     if x.state == "parked" and x.pending[0] == "flock" and x.can_run() != ms["enabled"][x.idx]:
                         ctx.disagree("kernel grant (real stand-in vs model)", dict(case), x.can_run(), ms["enabled"][x.idx])
